@@ -12,7 +12,9 @@ For each `initialize` the body is walked statement by statement:
   * any other statement that contains an assignment to a `cls.` attribute (a loop, a `with`, setattr(cls, ...), a nested function) is refused.
 The generated Lean file states `Gen.<class>Writes = C20.<class>Writes` (kernel, `by rfl`); lean/Props/C20Prog.lean proves that on every
 successful initialize the model's trace (DroopModel/Session.lean) writes exactly these attributes.
-usage: gen_initwrites.py <repo> <out.lean>   (importable: programs(repo) -> dict)"""
+Besides, over the whole package (process_state): every module-level or class-body-level name bound to a mutable container, every `global`
+statement, and every store to a class attribute from inside a function in any class other than the three value classes - state that can outlive
+an Election object.  usage: gen_initwrites.py <repo> <out.lean>   (importable: programs(repo) -> dict)"""
 import ast, os, sys
 
 
@@ -112,7 +114,73 @@ def programs(repo):
                             if isinstance(tt, ast.Name) and tt.id in ('cls', cname) and ch:
                                 others.append((n.name, ch[-1]))
         res[lname] = (out, sorted(set(others)))
+    res['__process__'] = process_state(repo)
     return res
+
+
+MUTABLE_CALLS = ('dict', 'list', 'set', 'defaultdict', 'OrderedDict', 'Counter', 'deque', 'bytearray')
+
+
+def _is_container(v):
+    if isinstance(v, (ast.Dict, ast.List, ast.Set, ast.ListComp, ast.DictComp, ast.SetComp)):
+        return True
+    if isinstance(v, ast.Call):
+        f = v.func
+        return (isinstance(f, ast.Name) and f.id in MUTABLE_CALLS) or (isinstance(f, ast.Attribute) and f.attr in MUTABLE_CALLS)
+    return False
+
+
+def process_state(repo):
+    """state that outlives an Election object anywhere in the package:
+    containers   (module, scope, name) of every module-level or class-body-level name bound to a mutable container, and every `global` statement
+    classWrites  (module, Class.method, attribute) of every store to `cls.<a>`, `<KnownClass>.<a>`, `self.__class__.<a>`, `type(self).<a>` inside a
+                 function, in any class but the three value classes (those are in *WritesElsewhere)"""
+    import glob
+    root = os.path.join(repo, 'droop')
+    containers, writes = [], []
+    for path in sorted(glob.glob(os.path.join(root, '**', '*.py'), recursive=True)):
+        rel = os.path.relpath(path, root)
+        if rel.startswith('test'):
+            continue
+        tree = ast.parse(open(path).read(), path)
+        classes = {n.name for n in ast.walk(tree) if isinstance(n, ast.ClassDef)}
+        def scan(body, scope):
+            for st in body:
+                if isinstance(st, ast.ClassDef):
+                    scan(st.body, (scope + '.' if scope else '') + st.name)
+                elif isinstance(st, (ast.Assign, ast.AnnAssign)) and st.value is not None and _is_container(st.value):
+                    for t in (st.targets if isinstance(st, ast.Assign) else [st.target]):
+                        containers.append((rel, scope or '<module>', ast.unparse(t)))
+        scan(tree.body, '')
+        for n in ast.walk(tree):
+            if isinstance(n, ast.Global):
+                containers.append((rel, 'global', ','.join(n.names)))
+        def visit(node, owner, in_func):
+            for ch in ast.iter_child_nodes(node):
+                o, f = owner, in_func
+                if isinstance(ch, ast.ClassDef):
+                    o = (owner + '.' if owner else '') + ch.name
+                elif isinstance(ch, (ast.FunctionDef, ast.AsyncFunctionDef)):
+                    o = (owner + '.' if owner else '') + ch.name; f = True
+                if f and isinstance(ch, (ast.Assign, ast.AugAssign, ast.AnnAssign)):
+                    for t0 in (ch.targets if isinstance(ch, ast.Assign) else [ch.target]):
+                        for t in ast.walk(t0):
+                            if isinstance(t, (ast.Attribute, ast.Subscript)) and isinstance(getattr(t, 'ctx', None), ast.Store):
+                                base = t.value
+                                while isinstance(base, (ast.Attribute, ast.Subscript)) and not (
+                                        isinstance(base, ast.Attribute) and ast.unparse(base) in ('self.__class__',)):
+                                    inner = base.value
+                                    if isinstance(inner, ast.Name) or ast.unparse(inner) in ('self.__class__', 'type(self)'):
+                                        break
+                                    base = inner
+                                txt = ast.unparse(t)
+                                head = txt.split('.')[0].split('[')[0]
+                                if head in classes or head == 'cls' or txt.startswith('self.__class__') or txt.startswith('type(self)'):
+                                    if not any(o.startswith(c + '.') or ('.' + c + '.') in o for c in ('Fixed', 'Guarded', 'Rational')):
+                                        writes.append((rel, o, txt))
+                visit(ch, o, f)
+        visit(tree, '', False)
+    return sorted(set(containers)), sorted(set(writes))
 
 
 def _lean_prog(entries):
@@ -124,7 +192,7 @@ def _lean_prog(entries):
 
 def lean_file(res):
     lines = ['import Props.C20Prog', 'namespace Gen', 'open Droop Droop.C20', '']
-    for lname, (entries, others) in sorted(res.items()):
+    for lname, (entries, others) in sorted((k, v) for k, v in res.items() if not k.startswith('__')):
         lines.append('def %s : WProg := %s' % (lname, _lean_prog(entries)))
         lines.append('theorem %s_is_committed : %s = C20.%s := by rfl' % (lname, lname, lname))
         lines.append('#print axioms %s_is_committed' % lname)
@@ -132,6 +200,13 @@ def lean_file(res):
         lines.append('theorem %sElsewhere_is_committed : %sElsewhere = C20.%sElsewhere := by rfl' % (lname, lname, lname))
         lines.append('#print axioms %sElsewhere_is_committed' % lname)
         lines.append('')
+    cont, wr = res.get('__process__', ([], []))
+    lines.append('def processContainers : List (String × String × String) := [%s]' % ', '.join('("%s", "%s", "%s")' % c for c in cont))
+    lines.append('theorem processContainers_is_committed : processContainers = C20.processContainers := by rfl')
+    lines.append('#print axioms processContainers_is_committed')
+    lines.append('def classWritesOutsideValues : List (String × String × String) := [%s]' % ', '.join('("%s", "%s", "%s")' % c for c in wr))
+    lines.append('theorem classWritesOutsideValues_is_committed : classWritesOutsideValues = C20.classWritesOutsideValues := by rfl')
+    lines.append('#print axioms classWritesOutsideValues_is_committed')
     lines.append('end Gen')
     return '\n'.join(lines) + '\n'
 
